@@ -123,12 +123,12 @@ func init() {
 		for i := 1; i < n; i++ {
 			c := e.clone(st)
 			c.pc = append(c.pc, e.ts.Eq(v, e.c64(int64(i))))
-			c.model = nil
+			c.model = modelWith(st.model, name, int64(i))
 			e.set(c, call, e.c64(int64(i)))
 			e.pending = append(e.pending, c)
 		}
 		st.pc = append(st.pc, e.ts.Eq(v, e.c64(0)))
-		st.model = nil
+		st.model = modelWith(st.model, name, 0)
 		return e.c64(0)
 	}
 	h["vConcretize"] = func(e *Engine, st *State, a []Value, in ssa.Instruction) Value {
@@ -257,6 +257,18 @@ func init() {
 	h["vNote"] = func(e *Engine, st *State, a []Value, in ssa.Instruction) Value {
 		return nil
 	}
+}
+
+// modelWith extends a witness with a value for a fresh, so far unconstrained variable.
+func modelWith(m *Env, name string, val int64) *Env {
+	n := NewEnv()
+	if m != nil {
+		for k, v := range m.vals {
+			n.vals[k] = v
+		}
+	}
+	n.vals[name] = big.NewInt(val)
+	return n
 }
 
 func (e *Engine) checkAssert(st *State, name string, c *Term, in ssa.Instruction) {
